@@ -1,6 +1,7 @@
 import Percival.Driver.Loop
 import Percival.Model.Http
 import Percival.Model.HttpRequest
+import Percival.Spec.HttpResp
 /-! `pmodel http`: line protocol for http/http.c (C08/C09).  Driver code: the concrete buffered reader
     (netbuf_read.c's buffer geometry + the scripted segments) is the `oracle` handed to `Model.Http.run`. -/
 namespace Percival.Driver.Http
@@ -48,6 +49,9 @@ structure Cfg where
   sndfail : Option Nat := none
   cancel : Option Nat := none
   early : Bool := false
+  /-- the response as a value (well-formed generator): blocks in reverse order, then the whole value -/
+  wfBlocks : List Spec.HttpResp.Block := []
+  wf : Option Spec.HttpResp.Resp := none
 
 /-- the buffered reader + the scripted network -/
 structure Reader where
@@ -135,6 +139,18 @@ def rangeOk (limit : Nat) : Option Http.Resp → Bool
        | none => true
        | some b => b.length ≤ limit)
 
+/-- when the response came as a value: is the model's decoding exactly that value? -/
+def specAgrees (c : Cfg) (got : Option Http.Resp) : Bool :=
+  match c.wf with
+  | none => true
+  | some r =>
+    let ishead := HttpRequest.isHead c.req
+    let body := Spec.HttpResp.expectedBody r ishead
+    if body.length > c.limit then true else
+    match got with
+    | some g => g.status == (r.final.status : Int) && g.headers == Spec.HttpResp.expectedHeaders r && g.body == some body
+    | none => false
+
 def runCase (c : Cfg) (generic : Bool) : String :=
   match HttpRequest.serializeRequest c.req with
   | none => "abort request-length-assert"
@@ -159,6 +175,7 @@ def runCase (c : Cfg) (generic : Bool) : String :=
   match Http.runAll glibcOvf readerWait rd (HttpRequest.isHead c.req) c.limit data with
   | .abort why ws => s!"abort {why} | waits={showWaits ws}"
   | .callback r ws =>
+    if !(specAgrees c r) then s!"spec-mismatch model-decoded: {showResp r}" else
     match c.cancel with
     | some k =>
       if k ≤ ws.length then fin 0 "none" sentAll (ws.take k) true
@@ -179,6 +196,47 @@ def takeHdrs : Nat → List String → List (Bytes × Bytes) → Option (List (B
 def repeatRev (pat : Bytes) : Nat → Bytes → Bytes
   | 0, acc => acc
   | n + 1, acc => repeatRev pat n (pat.reverse ++ acc)
+
+def parseHdrList (s : String) : Option (List Spec.HttpResp.Hdr) :=
+  if s = "-" then some [] else
+  (s.splitOn ",").mapM fun (t : String) =>
+    match t.splitOn ":" with
+    | [n, v, a, b] =>
+      match unhex n, unhex v, unhex a, unhex b with
+      | some n, some v, some a, some b => some { name := n, value := v, pre := a, post := b }
+      | _, _, _, _ => none
+    | _ => none
+
+/-- `hex*count,hex*count,…` -/
+def parsePieces (s : String) : Option Bytes :=
+  if s = "-" then some [] else
+  ((s.splitOn ",").mapM fun (t : String) =>
+    match t.splitOn "*" with
+    | [h, n] =>
+      match unhex h, n.toNat? with
+      | some b, some n => some (repeatRev b n []).reverse
+      | _, _ => none
+    | _ => none).map List.flatten
+
+/-- `size:exthex,…` applied to the body -/
+def splitChunks : List String → Bytes → Option (List (Bytes × Bytes))
+  | [], _ => some []
+  | t :: ts, body =>
+    match t.splitOn ":" with
+    | [n, e] =>
+      match n.toNat?, unhex e with
+      | some n, some e => (splitChunks ts (body.drop n)).map fun rest => (body.take n, e) :: rest
+      | _, _ => none
+    | _ => none
+
+def mkWf (c : Cfg) (f : Spec.HttpResp.Framing) : Cfg × String :=
+  match c.wfBlocks with
+  | [] => (c, "bad-op")
+  | final :: interimRev =>
+    let r : Spec.HttpResp.Resp := { interim := interimRev.reverse, final := final, framing := f }
+    let wire := Spec.HttpResp.serialize r (HttpRequest.isHead c.req)
+    if wire == c.chunks.reverse.flatten then ({ c with wf := some r }, "ok")
+    else ({ c with wf := some r }, "bad-serialisation: Spec.serialize differs from the generated stream")
 
 def optNat (s : String) : Option (Option Nat) :=
   if s = "-" then some none else s.toNat?.map some
@@ -214,6 +272,27 @@ def step (c : Cfg) (toks : List String) : Cfg × String :=
     match conn.toNat?, optNat sf, optNat cn with
     | some conn, some sf, some cn =>
       ({ c with conn := conn, sndfail := sf, cancel := cn, early := early == "1" }, "ok")
+    | _, _, _ => (c, "bad-op")
+  | ["wfb", minor, status, reason, hl] =>
+    match minor.toNat?, status.toNat?, unhex reason, parseHdrList hl with
+    | some minor, some status, some reason, some hs =>
+      ({ c with wfBlocks := { minor := minor, status := status, reason := reason, headers := hs } :: c.wfBlocks }, "ok")
+    | _, _, _, _ => (c, "bad-op")
+  | ["wff", "none"] => mkWf c (.close [])
+  | ["wff", "close", b] =>
+    match parsePieces b with
+    | some b => mkWf c (.close b)
+    | none => (c, "bad-op")
+  | ["wff", "length", b, tail] =>
+    match parsePieces b, unhex tail with
+    | some b, some tail => mkWf c (.length b tail)
+    | _, _ => (c, "bad-op")
+  | ["wff", "chunked", sizes, lastext, tail, b] =>
+    match parsePieces b, unhex lastext, unhex tail with
+    | some b, some le, some tail =>
+      match splitChunks (if sizes = "-" then [] else sizes.splitOn ",") b with
+      | some cs => mkWf c (.chunked cs le tail)
+      | none => (c, "bad-op")
     | _, _, _ => (c, "bad-op")
   | ["run"] => (c, runCase c false)
   | ["run", "g"] => (c, runCase c true)
